@@ -240,22 +240,25 @@ func MavenCompare(a, b string) int {
 
 var (
 	mvCacheMu sync.Mutex
-	mvCache   = map[string]*mvList{}
+	mvCache   = map[mvKey]*mvList{}
 )
+
+// mvKey: the mode is part of the key as a field, not as a prefix of the text (inputs may contain any byte).
+type mvKey struct {
+	s     string
+	alias bool
+}
 
 // mvParsed memoises mvParse (parsed trees are never modified after normalize).
 func mvParsed(s string, aliasAlways bool) *mvList {
-	key := s
-	if aliasAlways {
-		key = "\x00" + s
-	}
+	key := mvKey{s, aliasAlways}
 	mvCacheMu.Lock()
 	defer mvCacheMu.Unlock()
 	if l, ok := mvCache[key]; ok {
 		return l
 	}
 	if len(mvCache) > 100000 {
-		mvCache = map[string]*mvList{}
+		mvCache = map[mvKey]*mvList{}
 	}
 	l := mvParse(strings.TrimSpace(s), aliasAlways)
 	mvCache[key] = l
